@@ -204,23 +204,22 @@ pub fn c14_make(scn: &C14Scn, exec_no: u64, rec: &Arc<Recorder>) -> (Vec<Box<dyn
                 if inbound {
                     b = b.with_traffic_type(TrafficType::Inbound);
                 }
-                let start = rec.tick();
                 let t_build = rel_ms(t0);
                 let r = guarded(|| b.build());
                 match r {
                     Ok(Ok(e)) => {
                         let node = e.context().read().unwrap().stat_node().map(|n| Arc::as_ptr(&n) as *const () as usize).unwrap_or(0);
-                        rec.put(json!({"e": "build", "th": th, "id": id, "r": "pass", "node": node, "in": inbound, "start": start, "t": t_build}));
+                        rec.put(json!({"e": "build", "th": th, "id": id, "r": "pass", "node": node, "in": inbound, "t": t_build, "t2": rel_ms(t0)}));
                         if hold && k + 1 == pairs {
                             held.lock().unwrap().push(e);
                         } else {
-                            let start = rec.tick();
+                            let t_exit = rel_ms(t0);
                             let r = guarded(|| e.exit());
-                            rec.put(json!({"e": "exit", "th": th, "id": id, "r": if r.is_ok() { "ok" } else { "panic" }, "start": start, "t": rel_ms(t0)}));
+                            rec.put(json!({"e": "exit", "th": th, "id": id, "r": if r.is_ok() { "ok" } else { "panic" }, "t": t_exit, "t2": rel_ms(t0)}));
                         }
                     }
-                    Ok(Err(_)) => rec.put(json!({"e": "build", "th": th, "id": id, "r": "block", "node": 0, "in": inbound, "start": start, "t": t_build})),
-                    Err(p) => rec.put(json!({"e": "build", "th": th, "id": id, "r": "panic", "panic": p, "node": 0, "in": inbound, "start": start, "t": t_build})),
+                    Ok(Err(_)) => rec.put(json!({"e": "build", "th": th, "id": id, "r": "block", "node": 0, "in": inbound, "t": t_build, "t2": rel_ms(t0)})),
+                    Err(p) => rec.put(json!({"e": "build", "th": th, "id": id, "r": "panic", "panic": p, "node": 0, "in": inbound, "t": t_build, "t2": rel_ms(t0)})),
                 }
             }
         }));
